@@ -1323,3 +1323,30 @@ fn create_execution_result(
         }
     }
 }
+
+/// Verification hooks (feature `verif-hooks`): read-only access to two private pure helpers of the
+/// executor. Add-only; not used by nextest itself.
+#[cfg(feature = "verif-hooks")]
+pub mod verif_exec {
+    use super::*;
+
+    /// `create_execution_result` on a raw Unix wait status.
+    #[cfg(unix)]
+    pub fn classify(raw_wait_status: i32, child_error: bool, leaked: bool) -> ExecutionResult {
+        use std::os::unix::process::ExitStatusExt;
+        let status = ExitStatus::from_raw(raw_wait_status);
+        let errors: Vec<ChildFdError> = if child_error {
+            vec![ChildFdError::ReadStdout(std::sync::Arc::new(
+                std::io::Error::other("verif"),
+            ))]
+        } else {
+            Vec::new()
+        };
+        create_execution_result(status, &errors, leaked)
+    }
+
+    /// Every delay `BackoffIter` yields for a policy, in order.
+    pub fn backoff_delays(policy: RetryPolicy) -> Vec<Duration> {
+        BackoffIter::new(policy).collect()
+    }
+}
